@@ -29,6 +29,7 @@ type fpShape struct {
 	dirAttr   bool   // task has dir: newdir (does not exist at first)
 	dirSh     bool   // with dirAttr: the task also has a dynamic variable, a precondition and a status check (commands that read-only modes still run)
 	selfEdit  bool   // the command rewrites a matched source (src/made.txt: orig -> made) while it runs
+	condLabel bool   // label: 'build{{if .TARGET}}-{{.TARGET}}{{end}}' (equals the task name unless TARGET is given)
 	deferCmd  bool   // the task has a deferred shell command that writes a file
 	global    string // top-level method: differing from the task's own
 	broken    bool   // the Taskfile also has a task that cannot be compiled (for over a non-list var)
@@ -85,6 +86,9 @@ func (sh fpShape) files() map[string]string {
 		}
 		if sh.label {
 			s += "    label: 'the-{{.TASK}}'\n"
+		}
+		if sh.condLabel {
+			s += "    label: '{{.TASK}}{{if .TARGET}}-{{.TARGET}}{{end}}'\n"
 		}
 		if sh.dirAttr {
 			s += "    dir: newdir\n"
@@ -220,6 +224,10 @@ func fpInvocations(sh fpShape) []fpInv {
 	}
 	if sh.collide {
 		invs = append(invs, fpInv{name: "run-other", args: []string{"a-b"}, kind: "run", other: true})
+	}
+	if sh.condLabel {
+		invs = append(invs, fpInv{name: "dry-other-label", args: []string{"--dry", t, "TARGET=arm"}, readOnly: true, kind: "query"},
+			fpInv{name: "status-other-label", args: []string{"--status", t, "TARGET=arm"}, readOnly: true, kind: "query"})
 	}
 	if sh.broken {
 		invs = append(invs, fpInv{name: "summary-with-broken", args: []string{"--summary", t, "broken"}, readOnly: true, kind: "query"},
@@ -499,7 +507,7 @@ func fpUnits(prop, tier string) []*Unit {
 		)
 		if prop == "C12" {
 			shapes = append(shapes, fpShape{name: "dir-attr", method: m, dirAttr: true}, fpShape{name: "with-broken-task", method: m, broken: true},
-				fpShape{name: "dir-attr-dynvar-precondition-status", method: m, dirAttr: true, dirSh: true}, fpShape{name: "deferred-command", method: m, deferCmd: true})
+				fpShape{name: "dir-attr-dynvar-precondition-status", method: m, dirAttr: true, dirSh: true}, fpShape{name: "deferred-command", method: m, deferCmd: true}, fpShape{name: "label-depends-on-call-variable", method: m, condLabel: true})
 		} else {
 			shapes = append(shapes, fpShape{name: "dep", method: m, dep: true}, fpShape{name: "two-generates", method: m, generates: true, gen2: true})
 			if m == "checksum" {
